@@ -7,10 +7,12 @@ CONSTANTS
  MaxSteps = 6
  Emit = FALSE
  Skew = TRUE
+ WithAttrs = TRUE
  Selections = {{"p1"}, {"p1","p2"}}
 SPECIFICATION MSpec
 VIEW MView
 INVARIANT OnlySelectedChange
+INVARIANT OnlyMarkedChange
 PROPERTY ExportRestores
 ACTION_CONSTRAINT EmitMigrate
 CHECK_DEADLOCK FALSE
